@@ -45,7 +45,11 @@ EDGE = ['C[CH]C |^1:1|', '[CH3] |^1:0|', 'C[N](C)[O] |^1:3|', '[O]N=O |^1:0|', '
         # carbanion rings, ionic metallocene drawings, azolium cations (charge placement decided by the Morgan order)
         'C[c-]1cccc1', 'CC1=CC=C[CH-]1', '[cH-]1ccc2ccccc12', 'C[c-]1cccc1.[Fe+2].C[c-]1cccc1', 'CC1=C[CH-]C=C1.[Li+]',
         'CCn1cc[n+](C)c1', 'CCCCn1cc[n+](C)c1', 'C[n+]1cc[nH]c1', 'N[C@@H](Cc1c[nH]c[nH+]1)C(O)=O', 'C[n+]1ccn(C)n1',
-        'CN1C=C[N+](C)=C1', 'C1=C[NH+]=CN1']
+        'CN1C=C[N+](C)=C1', 'C1=C[NH+]=CN1',
+        # chelates drawn with covalent aromatic-N - metal bonds inside a ring: kekule()'s ring repair turns those bonds into
+        # coordinate bonds, which changes the ring set while the ring caches may already be filled
+        '[Cu]1n2ccccc2-c2ccccn12', 'Cl[Pt]1(Cl)n2ccccc2-c2ccccn12', '[Zn]1n2ccccc2-c2ccccn12', 'c1ccn2[Pd]n3ccccc3-c2c1',
+        '[Cu]1n2cccc3ccc4cccn1c4c32', 'c1ccn(cc1)[Cu]', 'C1=CC=N2[Cu]N3=CC=CC=C3C2=C1', '[Fe]1n2ccccc2C=N1', 'O=C1O[Cu]n2ccccc12']
 QUERIES = ['[C;D1]', 'C=O', 'c:c', '[N,O;D1]', 'C-C-C', '[C;r6]']
 
 
